@@ -4,12 +4,25 @@ pub fn run() -> Value {
     let secret = "wJalrXUtnFEMI/K7MDENG/bPxRfiCYEXAMPLEKEY-7f3a9c";
     let k = s3s::auth::SecretKey::from(secret);
     let c = s3s::auth::Credentials { access_key: "AKIAEXAMPLE".into(), secret_key: k.clone() };
-    let outs = vec![
+    let outs: Vec<(&str, String)> = vec![
         ("Debug(SecretKey)", format!("{k:?}")),
         ("Debug(Credentials)", format!("{c:?}")),
         ("Debug-alt(Credentials)", format!("{c:#?}")),
         ("serde_json(SecretKey)", serde_json::to_string(&k).unwrap_or_default()),
     ];
+    // loading: serde_json texts for a SecretKey — well-formed, padded with blanks / a line feed, empty, of a wrong JSON type after a
+    // string prefix, truncated — every error text (Display and Debug) is searched for the secret too
+    let mut outs = outs;
+    for (what, doc) in [
+        ("plain", format!("\"{secret}\"")), ("trailing line feed", format!("\"{secret}\\n\"")), ("leading blank", format!("\" {secret}\"")),
+        ("trailing blanks", format!("\"{secret}  \"")), ("empty", "\"\"".to_owned()), ("unterminated", format!("\"{secret}")),
+        ("array", format!("[\"{secret}\"]")), ("object", format!("{{\"k\": \"{secret}\"}}")), ("trailing garbage", format!("\"{secret}\" x")),
+    ] {
+        match serde_json::from_str::<s3s::auth::SecretKey>(&doc) {
+            Ok(k) => outs.push((Box::leak(format!("Debug(deserialized SecretKey, {what})").into_boxed_str()), format!("{k:?}"))),
+            Err(e) => outs.push((Box::leak(format!("deserialization error ({what})").into_boxed_str()), format!("{e} | {e:?}"))),
+        }
+    }
     for (what, text) in &outs {
         if text.contains(secret) || text.contains(&secret[..12]) {
             return json!({"violates": true, "input": {"rendering": what}, "expected": "no part of the secret", "observed": text, "replay_args": ["secret"]});
